@@ -84,6 +84,7 @@ sub vcl_error {
 sub vcl_deliver {
   set resp.http.X-Marker = req.http.X-Marker;
   set resp.http.X-Count = req.http.X-Count;
+  if (req.http.X-Dbg) { set resp.http.X-Dbg-Marker = req.http.X-Marker; }
   set resp.http.X-Flow = req.http.X-Flow ">deliver>log";
   set resp.http.X-Restarts = req.restarts;
   log "deliver " req.http.X-Marker;
@@ -98,7 +99,8 @@ type kInput struct {
 	Key    string // URL
 	Delta  int
 	Marker string
-	Slot   int // timed cases: the request is sent at Slot × 10 s of simulated time (objects live 25 s)
+	Dbg    bool // the request asks for a debug header (set conditionally in vcl_deliver: no other request's response may carry it)
+	Slot   int  // timed cases: the request is sent at Slot × 10 s of simulated time (objects live 25 s)
 }
 
 type kOutput struct {
@@ -314,11 +316,27 @@ func decodeProxy(r *clientResult) {
 		r.isoErr = fmt.Sprintf("response header X-Marker=%q but the request sent %q", got, r.in.Marker)
 		return
 	}
+	if e := dbgIso(r, h.Get("X-Dbg-Marker")); e != "" {
+		r.isoErr = e
+		return
+	}
 	if o.Branch == "error" {
 		if got := h.Get("X-Err-Marker"); got != r.in.Marker {
 			r.isoErr = fmt.Sprintf("error object carries marker %q, own marker %s", got, r.in.Marker)
 		}
 	}
+}
+
+// dbgIso: the debug header is only set for a request that asks for it, and
+// then with that request's marker.
+func dbgIso(r *clientResult, got string) string {
+	switch {
+	case r.in.Dbg && got != r.in.Marker:
+		return fmt.Sprintf("response header X-Dbg-Marker=%q for a request that asked for it with marker %q", got, r.in.Marker)
+	case !r.in.Dbg && got != "":
+		return fmt.Sprintf("response header X-Dbg-Marker=%q although this request (marker %s) did not ask for the debug header: it is another request's", got, r.in.Marker)
+	}
+	return ""
 }
 
 func decode(r *clientResult) {
@@ -363,6 +381,10 @@ func decode(r *clientResult) {
 		r.isoErr = fmt.Sprintf("response header X-Marker=%q but the request sent %q", got, r.in.Marker)
 		return
 	}
+	if e := dbgIso(r, pj.ClientResponse.Headers["x-dbg-marker"]); e != "" {
+		r.isoErr = e
+		return
+	}
 	for _, l := range pj.Logs {
 		f := strings.Fields(l.Message)
 		if len(f) == 2 && f[1] != r.in.Marker {
@@ -389,7 +411,7 @@ func runPartA(c *worker.Ctx) {
 	modes := []string{"lookup", "lookup", "lookup", "pass", "error", "restart"}
 	var ins []kInput
 	for i := 0; i < n; i++ {
-		ins = append(ins, kInput{Mode: modes[c.T.Draw(len(modes))], Key: keys[c.T.Draw(len(keys))], Delta: 1 + c.T.Draw(3), Marker: fmt.Sprintf("m%d", i)})
+		ins = append(ins, kInput{Mode: modes[c.T.Draw(len(modes))], Key: keys[c.T.Draw(len(keys))], Delta: 1 + c.T.Draw(3), Marker: fmt.Sprintf("m%d", i), Dbg: c.T.Bool(1, 4)})
 	}
 	faulty := c.T.Bool(1, 4)
 	// timed case: requests are sent in 10-second slots and objects live 25 s,
@@ -440,6 +462,9 @@ func runPartA(c *worker.Ctx) {
 			u, _ := url.Parse(r.in.Key)
 			req := &http.Request{Method: "GET", URL: u, Host: "example.test", Proto: "HTTP/1.1", ProtoMajor: 1, ProtoMinor: 1, RemoteAddr: "192.0.2.10:4000", RequestURI: r.in.Key, Body: http.NoBody,
 				Header: http.Header{"X-Marker": {r.in.Marker}, "X-Mode": {r.in.Mode}, "X-Delta": {fmt.Sprint(r.in.Delta)}}}
+			if r.in.Dbg {
+				req.Header.Set("X-Dbg", "1")
+			}
 			rw := simnet.NewHijackRecorder()
 			r.proxy = proxy
 			if r.in.Slot > 0 {
@@ -637,6 +662,8 @@ func runPartA(c *worker.Ctx) {
 
 func isoClass(s string) string {
 	switch {
+	case strings.HasPrefix(s, "response header X-Dbg"):
+		return "debug-header"
 	case strings.HasPrefix(s, "response header"):
 		return "marker"
 	case strings.HasPrefix(s, "log line"):
